@@ -86,19 +86,28 @@ def _eip_cases():
                    ('before_assign', 'pha'): phase_eip.before_merge(first),
                    ('before_return',): phase_eip.before_return(first)},
             ensures=list(phase_eip.ENSURES), ensures_using=dict(phase_eip.ENSURES_USING)))
-        out.append(dict(
-            label='midpoints,%s-first' % first,
-            params={'sig': ('arr', XR), 'peaks': ('arr', INT), 'troughs': ('arr', INT), 'rises': ('arr', INT), 'decays': ('arr', INT)},
-            requires=[
-                # one midpoint per flank, inside its closed flank (the postcondition of find_zerox): it may sit on an extremum
-                counts + " and len({MA}) == len({B}) and len({MB}) == len({A}) - 1".format(A=A, B=B, MA=MA, MB=MB)] + alternate + [
-                "forall(k, 0 <= k < len({MA}), {A}[k] <= {MA}[k] and {MA}[k] <= {B}[k])".format(A=A, B=B, MA=MA),
-                "forall(k, 0 <= k < len({MB}), {B}[k] <= {MB}[k] and {MB}[k] <= {A}[k + 1])".format(A=A, B=B, MB=MB)],
-            proof={('before_lib', 'numpy.interp', 1): phase_eip.before_interp(first, 'mid'),
-                   ('before_lib', 'numpy.interp', 2): phase_eip.before_interp(first, 'mid'),
-                   ('before_assign', 'pha'): phase_eip.before_merge(first, 'mid'),
-                   ('before_return',): phase_eip.before_return(first, 'mid')},
-            ensures=list(phase_eip.ENSURES) + phase_eip.midpoint_clauses(first), ensures_using=dict(phase_eip.ENSURES_USING_MID)))
+        for has_r, has_d in ((True, True), (True, False), (False, True)):
+            ens, using = phase_eip.ensures_mid(first, has_r, has_d)
+            have = {'rises': has_r, 'decays': has_d}
+            counts_m = counts
+            flank = []
+            # one midpoint per flank, inside its closed flank (the postcondition of find_zerox): it may sit on an extremum
+            if have[MA]:
+                counts_m += " and len({MA}) == len({B})".format(MA=MA, B=B)
+                flank.append("forall(k, 0 <= k < len({MA}), {A}[k] <= {MA}[k] and {MA}[k] <= {B}[k])".format(A=A, B=B, MA=MA))
+            if have[MB]:
+                counts_m += " and len({MB}) == len({A}) - 1".format(MB=MB, A=A)
+                flank.append("forall(k, 0 <= k < len({MB}), {B}[k] <= {MB}[k] and {MB}[k] <= {A}[k + 1])".format(A=A, B=B, MB=MB))
+            out.append(dict(
+                label='%s,%s-first' % ('midpoints' if has_r and has_d else 'rises-only' if has_r else 'decays-only', first),
+                params={'sig': ('arr', XR), 'peaks': ('arr', INT), 'troughs': ('arr', INT),
+                        'rises': ('arr', INT) if has_r else 'none', 'decays': ('arr', INT) if has_d else 'none'},
+                requires=[counts_m] + alternate + flank,
+                proof={('before_lib', 'numpy.interp', 1): phase_eip.before_interp(first, 'mid'),
+                       ('before_lib', 'numpy.interp', 2): phase_eip.before_interp(first, 'mid'),
+                       ('before_assign', 'pha'): phase_eip.before_merge(first, 'mid'),
+                       ('before_return',): phase_eip.before_return(first, 'mid')},
+                ensures=ens, ensures_using=using))
     return out
 
 
